@@ -272,6 +272,7 @@ func (ex *Exec) checkAssigns(fr *Frame, entry, exit *State, reach Term, envPre *
 		for _, d := range byHeap[n] {
 			if d.all {
 				skip = true
+				continue
 			}
 			guard = append(guard, Neq(rv, d.root))
 		}
